@@ -62,6 +62,8 @@ structure Env (L : Type) where
   apply : L → Block → Option L              -- storeBlock's execution of the block; none = persist failure
   rootOf : L → Nat                          -- local state root
   keep : L → Tx → Bool                      -- IsTxStillRelevant for a pooled tx after the block
+  spoil : L → Block → L                     -- the ledger after storeBlock executed the block, applied the MPT
+                                            -- batch (stateroot.AddMPTBatch works on the live trie's nodes) and then failed
 
 /-- The node. `headers[i]` is the stored header of index `i`; header height = length - 1. -/
 structure Node (L : Type) where
@@ -183,13 +185,17 @@ def commit (env : Env L) (s : Node L) (b : Block) (l' : L) : Node L :=
       headers := s.headers.set b.hdr.index b.hdr,     -- StoreAsBlock rewrites the record under the block hash
       pool := s.pool.filter (fun q => !(b.txs.any (fun t => t.id == q.id)) && env.keep l' q) }
 
-/-- storeBlock as far as acceptance is concerned (blockchain.go:1967-2164): execution, then the
-check of the next known header's PrevStateRoot, then the commit. -/
+/-- storeBlock as far as acceptance is concerned: execution, then the check of the next known
+header's PrevStateRoot, then the commit. The check comes after stateRoot.AddMPTBatch, which has
+already changed the in-memory trie in place: when it fails nothing is committed, but the ledger the
+node works with is no longer the one it had (`spoil`; DESIGN §6 item 11, known finding
+failed-store-corrupts-trie). -/
 def storeBlock (env : Env L) (s : Node L) (b : Block) : Node L × Option Err :=
   match env.apply s.ledger b with
   | none => (s, some .store)
   | some l' =>
-    if nextHeaderOK env s b.hdr.index l' then (commit env s b l', none) else (s, some .store)
+    if nextHeaderOK env s b.hdr.index l' then (commit env s b l', none)
+    else ({ s with ledger := env.spoil s.ledger b }, some .store)
 
 /-- AddBlock's header step: the header is either the next one (verify and record it) or already
 known. Then its hash is compared with the recorded one and, unless the witness is the recorded
